@@ -1,3 +1,6 @@
+pub mod strkeys {
+use vstd::prelude::*;
+use vstd::std_specs::hash::*;
 // ---- prelude/strkeys.rs : String-keyed hash tables (trusted base, listed in every evidence file) ----
 // A-STR-EXT   a `String` value is determined by its character sequence.
 // A-STR-KEY   `String` obeys the hash-table key model (Eq/Hash agree with the view); lookups through
@@ -32,3 +35,5 @@ pub broadcast group group_strkeys {
     axiom_str_key_removed,
     axiom_string_key_model,
 }
+}
+pub use strkeys::*;
